@@ -576,6 +576,11 @@ def get_sort(node):
     """
     global __get_sort_cache
 
+    if is_index(node):
+        # An index of an identifier or sort is not a term. The same numeral
+        # may be an Int literal elsewhere: the structural part of the cache
+        # must neither answer for an index nor learn from one.
+        return None
     if node.id in __get_sort_cache:
         return __get_sort_cache[node.id]
     if node in __get_sort_cache:
